@@ -783,6 +783,8 @@ funcexpr(struct func *f, struct expr *e)
 			return lval.addr;
 		case TMUL:
 			r = funcexpr(f, e->base);
+			if (e->type == &typevoid)
+				return NULL;
 			return funcload(f, e->type, (struct lvalue){r});
 		case TSUB:
 			r = funcexpr(f, e->base);
